@@ -313,4 +313,45 @@ theorem response_eq (hW : Faithful W) (hc : W.closeFails = false) (link : Url) (
             simp only [ofOption, replyOf]
             cases W.decode body <;> simp
 
+
+/-- One hop of the model's `get` is the translated code: on a cache miss for an https link whose
+    server answers `resp`, `Jtp.get` returns what the translated statements of `Get` return on
+    `resp` — the document with its source, an error, or the recursive call on the resolved
+    Location with the budget the code passes on — and files in the cache what the code adds
+    (`Cache.add` under the same key).  Hypotheses: the decoder and `url.Parse`+`ResolveReference`
+    of the code's world are the model's `Env.decode` / `Env.resolve` (URLs as their `String()`). -/
+theorem get_fresh_eq (env : Env Doc) (W : GenJtp.Ext Jtp.Url Mime.MediaType Doc) (hW : Faithful W)
+    (hc : W.closeFails = false) (hd : W.decode = env.decode) (tol : List Str) (u : Jtp.Url)
+    (hr : ∀ v, (W.urlParse v).map (W.resolveReference u) = env.resolve u v)
+    (budget : Nat) (cache : Cache Doc) (resp : Str)
+    (hmiss : (cache.get (cacheKey tol u)).1 = none) (hs : env.https u = true)
+    (hserve : env.serve u = some resp) :
+    get env tol budget cache u =
+      match GenJtp.Get_response W u tol budget (cacheKey tol u) resp with
+      | .error _ => ⟨.err, (cache.get (cacheKey tol u)).2, [u]⟩
+      | .ok (.done d _ _) =>
+        ⟨.ok d u, ((cache.get (cacheKey tol u)).2).add (cacheKey tol u) (.doc d u), [u]⟩
+      | .ok (.again none _ _) => ⟨.err, (cache.get (cacheKey tol u)).2, [u]⟩
+      | .ok (.again (some t) b _) =>
+        let r := get env tol b (((cache.get (cacheKey tol u)).2).add (cacheKey tol u) (.redirect t)) t
+        ⟨r.res, r.cache, u :: r.requests⟩ := by
+  rw [response_eq hW hc, Jtp.get]
+  rcases hg : cache.get (cacheKey tol u) with ⟨e, c'⟩
+  rw [hg] at hmiss; simp only at hmiss; subst hmiss
+  simp only [hs, hserve, Bool.not_true, Bool.false_eq_true, if_false]
+  cases exchange tol resp with
+  | err => rfl
+  | doc body =>
+    simp only [replyOf, hd]
+    cases env.decode body <;> rfl
+  | redirect v =>
+    simp only [replyOf]
+    rw [← hr v]
+    cases W.urlParse v with
+    | none => rfl
+    | some r =>
+      cases budget with
+      | zero => rfl
+      | succ b => simp
+
 end Gen03
